@@ -128,6 +128,12 @@ impl<H: Hal, const SIZE: usize> VirtQueue<H, SIZE> {
             unsafe {
                 (*desc.as_ptr())[i as usize].next = i + 1;
             }
+            #[cfg(virtio_drivers_verif)]
+            crate::verif::emit(crate::verif::Event::Store {
+                what: 5,
+                index: i as u32,
+                value: (i + 1) as u64,
+            });
         }
 
         #[cfg(feature = "alloc")]
@@ -199,10 +205,18 @@ impl<H: Hal, const SIZE: usize> VirtQueue<H, SIZE> {
         unsafe {
             (*self.avail.as_ptr()).ring[avail_slot as usize] = head;
         }
+        #[cfg(virtio_drivers_verif)]
+        crate::verif::emit(crate::verif::Event::Store {
+            what: 1,
+            index: avail_slot as u32,
+            value: head as u64,
+        });
 
         // Write barrier so that device sees changes to descriptor table and available ring before
         // change to available index.
         fence(Ordering::SeqCst);
+        #[cfg(virtio_drivers_verif)]
+        crate::verif::emit(crate::verif::Event::Fence);
 
         // increase head of avail ring
         self.avail_idx = self.avail_idx.wrapping_add(1);
@@ -212,6 +226,12 @@ impl<H: Hal, const SIZE: usize> VirtQueue<H, SIZE> {
                 .idx
                 .store(self.avail_idx, Ordering::Release);
         }
+        #[cfg(virtio_drivers_verif)]
+        crate::verif::emit(crate::verif::Event::Store {
+            what: 2,
+            index: 0,
+            value: self.avail_idx as u64,
+        });
 
         Ok(head)
     }
@@ -331,6 +351,8 @@ impl<H: Hal, const SIZE: usize> VirtQueue<H, SIZE> {
         // Wait until there is at least one element in the used ring.
         while !self.can_pop() {
             spin_loop();
+            #[cfg(virtio_drivers_verif)]
+            crate::verif::emit(crate::verif::Event::Spin(0));
         }
 
         // SAFETY: These are the same buffers as we passed to `add` above and they are still valid.
@@ -350,6 +372,12 @@ impl<H: Hal, const SIZE: usize> VirtQueue<H, SIZE> {
                     .flags
                     .store(avail_ring_flags, Ordering::Release)
             }
+            #[cfg(virtio_drivers_verif)]
+            crate::verif::emit(crate::verif::Event::Store {
+                what: 3,
+                index: 0,
+                value: avail_ring_flags as u64,
+            });
         }
     }
 
@@ -379,6 +407,12 @@ impl<H: Hal, const SIZE: usize> VirtQueue<H, SIZE> {
         unsafe {
             (*self.desc.as_ptr())[index] = self.desc_shadow[index].clone();
         }
+        #[cfg(virtio_drivers_verif)]
+        crate::verif::emit(crate::verif::Event::Store {
+            what: 0,
+            index: index as u32,
+            value: 0,
+        });
     }
 
     /// Returns whether there is a used element that can be popped.
@@ -563,10 +597,76 @@ impl<H: Hal, const SIZE: usize> VirtQueue<H, SIZE> {
                     .used_event
                     .store(self.last_used_idx, Ordering::Release);
             }
+            #[cfg(virtio_drivers_verif)]
+            crate::verif::emit(crate::verif::Event::Store {
+                what: 4,
+                index: 0,
+                value: self.last_used_idx as u64,
+            });
         }
 
         Ok(len)
     }
+}
+
+/// Private driver state of a [`VirtQueue`], for diagnostic comparison with its formal model.
+#[cfg(all(virtio_drivers_verif, feature = "alloc"))]
+#[derive(Clone, Debug, Eq, PartialEq)]
+pub struct VerifSnapshot {
+    /// `num_used`
+    pub num_used: u16,
+    /// `free_head`
+    pub free_head: u16,
+    /// `avail_idx`
+    pub avail_idx: u16,
+    /// `last_used_idx`
+    pub last_used_idx: u16,
+    /// the shadow descriptor table as `(addr, len, flags, next)`
+    pub shadow: alloc::vec::Vec<(u64, u32, u16, u16)>,
+    /// which heads currently own an indirect table
+    pub indirect: alloc::vec::Vec<bool>,
+}
+
+#[cfg(all(virtio_drivers_verif, feature = "alloc"))]
+impl<H: Hal, const SIZE: usize> VirtQueue<H, SIZE> {
+    /// Copies out the private state.
+    pub fn verif_snapshot(&self) -> VerifSnapshot {
+        VerifSnapshot {
+            num_used: self.num_used,
+            free_head: self.free_head,
+            avail_idx: self.avail_idx,
+            last_used_idx: self.last_used_idx,
+            shadow: self
+                .desc_shadow
+                .iter()
+                .map(|d| (d.addr, d.len, d.flags.bits(), d.next))
+                .collect(),
+            indirect: self.indirect_lists.iter().map(|l| l.is_some()).collect(),
+        }
+    }
+
+    /// Starts the free-running 16-bit indices at `start` instead of 0, in the driver's private
+    /// copies and in the driver-written device-visible fields, so that histories next to the
+    /// wrap-around are reachable in a few operations. Must be called on a queue with nothing
+    /// outstanding; the device side must start its own indices at the same value.
+    pub fn verif_set_indices(&mut self, start: u16) {
+        assert_eq!(self.num_used, 0);
+        self.avail_idx = start;
+        self.last_used_idx = start;
+        // SAFETY: `self.avail` is properly aligned, dereferenceable and initialised.
+        unsafe {
+            (*self.avail.as_ptr()).idx.store(start, Ordering::Release);
+            (*self.avail.as_ptr())
+                .used_event
+                .store(start, Ordering::Release);
+        }
+    }
+}
+
+/// `queue_part_sizes`, for direct comparison with its formal model.
+#[cfg(virtio_drivers_verif)]
+pub fn verif_queue_part_sizes(queue_size: u16) -> (usize, usize, usize) {
+    queue_part_sizes(queue_size)
 }
 
 // SAFETY: None of the virt queue resources are tied to a particular thread.
